@@ -44,6 +44,8 @@ class Collector(object):
         self.ctx = ctx
         self.cases = []
         self.meta = []
+        self.key_cases = []
+        self.key_meta = []
         self.nviol = 0
 
     def observe(self, layout, ring, strat, t, got, via='token'):
@@ -205,17 +207,95 @@ def run_random(col, n, **kw):
         impl = col.run_ring(layout, ring, strats, random_queries(rng, ring, lo, hi), partitioner=part, dict_order=order, source='random')
         col.ctx.count('partitioner', part)
         if part == 'murmur3' and rng.random() < 0.3:
-            # through the public entry point: Metadata.get_replicas(keyspace, key)
-            ks, _ = impl.new_keyspace(strats[0])
-            for _k in range(3):
-                key = bytes(rng.randrange(256) for _ in range(rng.randint(0, 12)))
-                try:
-                    tok, got = impl.replicas_for_key(ks, key)
-                except Exception as e:       # noqa  (murmur3 extension missing)
-                    col.ctx.count('by_key', 'unavailable:' + type(e).__name__)
-                    break
-                col.ctx.count('by_key', 'ok')
-                col.observe(layout, ring, strats[0], tok, got, via='key')
+            keys = [bytes(rng.randrange(256) for _ in range(rng.randint(0, 20))) for _k in range(3)] + [rng.choice(rh.BOUNDARY_KEYS)]
+            run_by_key(col, layout, ring, strats[0], keys, impl=impl)
+
+
+MAXL, MINL = 2 ** 63 - 1, -2 ** 63
+
+
+def run_by_key(col, layout, ring, strat, keys, impl=None):
+    """the public entry point Metadata.get_replicas(keyspace, key) under Murmur3Partitioner: the key's token is computed by the
+    harness's own transcription of Cassandra's partitioner (hash + MIN_VALUE -> MAX_VALUE), never read from the driver"""
+    ctx = col.ctx
+    impl = impl or rh.Impl(layout, ring)
+    ks, _ = impl.new_keyspace(strat)
+    obs = []
+    for key in keys:
+        h = rh.partitioner_hash(key)
+        tok = rh.partitioner_token(key)
+        got = impl.replicas_for_key(ks, key)
+        j = rh.judge(layout, ring, strat, tok, got)
+        ctx.count('by_key', 'hash=MIN_VALUE' if h == MINL else 'hash=MAX_VALUE' if h == MAXL else 'other')
+        if j is not None:
+            key_ = j[0]
+            if h == MINL and rh.judge(layout, ring, strat, MINL, got) is None:
+                key_ = 'Murmur3Token.hash_fn.min-long-not-normalised'
+            ctx.violation(key_, 'Metadata.get_replicas(ks, %s): partitioner hash %d, token %d: %s' % (key.hex(), h, tok, j[1]),
+                          case={'layout': layout, 'ring': sorted(ring), 'strategy': strat, 'key_hex': key.hex()},
+                          expected={'set': sorted(rh.spec_replicas(layout, ring, strat, tok)), 'no_repetition': True}, actual=got, theorem='C26_key')
+        obs.append((h, got))
+    ctx.case(['by_key', layout, sorted(ring), strat, [k.hex() for k in keys]], nontrivial=nontrivial(layout, ring, strat))
+    col.key_cases.append('(%s, %s, %s, %s)' % (rh.g_layout(layout), rh.g_ring(ring), rh.g_strategy(strat), rh.g_obs(obs)))
+    col.key_meta.append({'layout': layout, 'ring': sorted(ring), 'strategy': strat, 'keys': [k.hex() for k in keys]})
+
+
+def run_boundary_keys(col):
+    """rings where some node owns the legal token Long.MAX_VALUE and its replicas differ from those of the lowest token"""
+    rng = col.ctx.rng
+    keys = list(rh.BOUNDARY_KEYS) + [b'', b'abc']
+    for layout, ring in (([[0, 0], [0, 1], [0, 0]], [[-100, 0], [0, 1], [MAXL, 2]]),
+                         ([[0, 0], [1, 0], [0, 1], [1, 1]], [[MINL, 0], [-5, 1], [7, 2], [MAXL - 1, 1], [MAXL, 3]]),
+                         ([[0, 0], [0, 0]], [[MINL + 1, 0], [MAXL, 1]])):
+        for strat in (['simple', '1'], ['simple', '2'], ['nts', {'0': '1', '1': '1'}], ['nts', {'0': '2'}]):
+            run_by_key(col, layout, ring, strat, keys)
+    for _ in range(20):
+        layout, ring, ndcs = random_ring(rng, max_hosts=5, max_tok=3)
+        if not any(t == MAXL for t, _ in ring):
+            ring = sorted(ring)[:-1] + [[MAXL, sorted(ring)[-1][1]]] if len(ring) > 1 else [[MAXL, ring[0][1]]]
+        run_by_key(col, layout, ring, random_strategies(rng, layout, ring, ndcs, 1)[0], keys)
+
+
+RACES = [([[0, 0], [0, 1], [0, 0]], [[-10, 0], [0, 1], [10, 2]], ['simple', '1'], ['simple', '3']),
+         ([[0, 0], [0, 1], [0, 0]], [[-10, 0], [0, 1], [10, 2]], ['simple', '3'], ['simple', '1']),
+         ([[0, 0], [1, 0], [0, 1], [1, 0]], [[-10, 0], [0, 1], [10, 2], [20, 3]], ['nts', {'0': '1'}], ['nts', {'0': '2', '1': '2'}]),
+         ([[0, 0], [1, 0], [0, 1], [1, 0]], [[-10, 0], [0, 1], [10, 2], [20, 3]], ['nts', {'0': '2', '1': '1'}], ['simple', '2'])]
+
+
+def judge_race(ctx, layout, ring, old, new, queries):
+    obs, errs, contended = rh.race_alter_during_first_build(layout, ring, old, new, queries)
+    ctx.count('race', 'event thread blocked on _rebuild_lock' if contended else 'event thread did not wait for the lock')
+    bad = None
+    for t, got in obs:
+        j = rh.judge(layout, ring, new, t, got)
+        if j is not None:
+            bad = (t, got, j)
+            break
+    if bad or errs:
+        t, got, j = bad or (None, None, ('error', '; '.join(errs)))
+        stale = bad is not None and rh.judge(layout, ring, old, t, got) is None
+        ctx.violation('TokenMap.rebuild_keyspace.race.stale-replica-map' if stale else 'TokenMap.rebuild_keyspace.race.' + j[0],
+                      'first lookup parked inside make_token_replica_map (settings %r read) while Metadata._update_keyspace delivers %r: '
+                      'afterwards token %r is served %r%s; %s' % (old, new, t, got, ' = the replicas of the OLD settings' if stale else '', j[1]),
+                      case={'layout': layout, 'ring': sorted(ring), 'race': {'old': old, 'new': new}, 'queries': queries}, kind='interleaving',
+                      expected='replicas of the new settings once both threads are done', actual=obs, theorem='C26_cache_current')
+    return obs
+
+
+def run_races(col):
+    ctx = col.ctx
+    src = open(os.path.join(core.REPO, 'cassandra/metadata.py')).read()
+    probs = rh.audit_rebuild_lock(src)
+    ctx.extra['lock_audit'] = probs or 'ok: TokenMap.rebuild_keyspace tests, reads and publishes only inside `with self._rebuild_lock`'
+    ctx.trust('lock-region audit of TokenMap.rebuild_keyspace (lib/vf/ring_harness.py:audit_rebuild_lock): the atomic steps of Model/RingCache.v')
+    if probs:
+        ctx.proof_broken.append(('atomicity-audit:TokenMap.rebuild_keyspace', '; '.join(probs)))
+    for layout, ring, old, new in RACES:
+        q = [t for t, _ in ring] + [ring[-1][0] + 1]
+        obs = judge_race(ctx, layout, ring, old, new, q)
+        ctx.case(['race', layout, ring, old, new], nontrivial=True)
+        col.cases.append(rh.g_case(layout, ring, [(new, obs)]))
+        col.meta.append({'layout': layout, 'ring': sorted(ring), 'per': [(new, obs)], 'race': [old, new]})
 
 
 def random_history(rng, layout, ring, ndcs):
@@ -326,6 +406,8 @@ def run(ctx):
         enumerate_scope(col, max_len=5, max_hosts=4, max_per_host=3, ndcs=2, nracks=2, source='enum<=5tok,4h,2r,2dc')
         run_random(col, 250)
         run_histories(col, 80)
+        run_boundary_keys(col)
+        run_races(col)
         scope = 'every ring of <= 5 tokens over <= 4 hosts (<= 3 tokens each) x <= 2 racks x <= 2 DCs'
     else:
         enumerate_scope(col, max_len=7, max_hosts=4, max_per_host=3, ndcs=2, nracks=2, source='enum<=7tok,4h,2r,2dc', coq_len=6)
@@ -333,6 +415,8 @@ def run(ctx):
         enumerate_scope(col, max_len=6, max_hosts=3, max_per_host=4, ndcs=1, nracks=3, source='enum<=6tok,3h,4tok,3r,1dc')
         run_random(col, 3000)
         run_histories(col, 600)
+        run_boundary_keys(col)
+        run_races(col)
         scope = ('every ring of <= 7 tokens over <= 4 hosts (<= 3 tokens each) x <= 2 racks x <= 2 DCs; every ring of <= 6 single-token hosts x <= 3 racks; '
                  'every ring of <= 6 tokens over <= 3 hosts (<= 4 tokens each) x <= 3 racks')
     ctx.exhaustive = True
@@ -374,6 +458,16 @@ def run(ctx):
         if res[1] != 'true':
             ctx.disagreement('coqspec-vs-impl', 'PlacementSpec.v disagrees with the driver (set/no-repetition) on layout=%r ring=%r' % (m['layout'], m['ring']),
                              case={'layout': m['layout'], 'ring': m['ring']}, actual=[(s, o) for s, o in m['per']][:3])
+    try:
+        kbad = ctx.coq_filter(['RingBase', 'Ring', 'PlacementSpec'], 'chk_key', col.key_cases, shard=max(8, (len(col.key_cases) + 7) // 8), prelude=rh.PRELUDE)
+    except RuntimeError as e:
+        ctx.proof_broken.append(('correspondence:Ring.by-key', str(e)[-800:]))
+        kbad = []
+    for i in kbad[:3]:
+        m = col.key_meta[i]
+        ctx.disagreement('model-or-coqspec-vs-impl.by-key', 'Metadata.get_replicas(ks, key) differs from Ring.v/PlacementSpec.v (key -> token -> replicas) on %r' % (m,),
+                         case=m, actual=m)
+    ctx.extra['coq_key_cases'] = len(col.key_cases)
     ctx.extra['coq_cases'] = len(col.cases)
     ctx.extra['observations'] = sum(len(o) for m in col.meta for _, o in m['per'])
 
@@ -399,6 +493,24 @@ def first_model_difference(ctx, m):
 
 def replay(ctx, rp):
     case = rp.get('case') or {}
+    if 'race' in case:
+        before = len(ctx.violations)
+        obs = judge_race(ctx, case['layout'], [list(e) for e in case['ring']], case['race']['old'], case['race']['new'], case['queries'])
+        print('replay race old=%r new=%r -> served %r' % (case['race']['old'], case['race']['new'], obs))
+        bad = len(ctx.violations) > before
+        print(('VIOLATION property=C26 replay=%s' % ctx.replay_path) if bad else 'not reproduced')
+        return 1 if bad else 0
+    if 'key_hex' in case:
+        ring = [list(e) for e in case['ring']]
+        impl = rh.Impl(case['layout'], ring)
+        ks, _ = impl.new_keyspace(case['strategy'])
+        key = bytes.fromhex(case['key_hex'])
+        got = impl.replicas_for_key(ks, key)
+        tok = rh.partitioner_token(key)
+        j = rh.judge(case['layout'], ring, case['strategy'], tok, got)
+        print('replay key=%s partitioner token=%d driver=%r cassandra=%r %s' % (case['key_hex'], tok, got, rh.spec_replicas(case['layout'], ring, case['strategy'], tok), ('-> ' + j[0]) if j else 'ok'))
+        print(('VIOLATION property=C26 replay=%s' % ctx.replay_path) if j else 'not reproduced')
+        return 1 if j else 0
     if 'history' in case:
         bad = False
         seen = []
